@@ -176,9 +176,9 @@ func ServiceIDOf(v knxnet.Service) (uint16, error) {
 // Encode is the reference encoding of a library service value (pointer forms, as the decoder
 // produces them). Variable parts longer than their protocol field are cut to the field limit
 // (additional info 255, application data 255, friendly name 29 + NUL). The DIBs of a search /
-// description response are written device-info first, then service families; unknown blocks of a
-// DescriptionRes are not part of the reference encoding of the two mandatory DIBs and make Encode
-// fail so that a caller never compares against a silently shortened reference.
+// description response are written device-info first, then service families; further blocks of a
+// DescriptionRes follow in the order given (length octet, type octet, data); further blocks of a
+// SearchRes have no encoder in the library and make Encode fail.
 func Encode(v knxnet.Service) ([]byte, error) {
 	id, err := ServiceIDOf(v)
 	if err != nil {
@@ -203,10 +203,14 @@ func Encode(v knxnet.Service) ([]byte, error) {
 		if err != nil {
 			return nil, err
 		}
-		if len(v.UnknownBlocks) != 0 {
-			return nil, fmt.Errorf("refenc: description response with further DIBs")
+		parts := [][]byte{d, EncodeFamiliesDIB(v.SupportedServices)}
+		for _, u := range v.UnknownBlocks {
+			if len(u.Data) > 253 {
+				return nil, fmt.Errorf("refenc: further DIB of %d data octets does not fit its length octet", len(u.Data))
+			}
+			parts = append(parts, cat([]byte{byte(2 + len(u.Data)), byte(u.Type)}, u.Data))
 		}
-		return Frame(id, cat(d, EncodeFamiliesDIB(v.SupportedServices))), nil
+		return Frame(id, cat(parts...)), nil
 	case *knxnet.ConnReq:
 		return ConnReq(EncodeHostInfo(v.Control), EncodeHostInfo(v.Tunnel), byte(v.Layer)), nil
 	case *knxnet.ConnRes:
